@@ -207,6 +207,8 @@ func checkC08(c *Ctx) {
 	c07ServerInputs(c, "R08f")
 	c08RouteAgreement(c)
 	c08HeaderSetNotAdd(c)
+	r.Rule("R08i", "regular expressions of the emitted TS modules are stateless: the same valid header is accepted on every call (shared with C09/R09k)", 1)
+	c09StatelessRegex(c, "R08i")
 }
 
 // unitLines returns the key-rendered lines of every variant of a unit (deduplicated).
@@ -274,22 +276,12 @@ func c08URL(c *Ctx) {
 		r.Check(nG > 0 && badG == "", "R08b", "Go client percent-encodes every path substitution with url.PathEscape", gpos,
 			"the Go client substitutes a path variable without url.PathEscape ("+strings.TrimSpace(badG)+"): the Go and TS servers decode path segments, not form encoding, so the handler receives a different value (a space arrives as '+')")
 	}
-	nExt, badExt := 0, ""
 	for _, l := range sl {
-		t := lineText(l.Segs)
-		if strings.Contains(t, "pathSegments[") {
-			nExt++
-			if !strings.Contains(t, "decodeURIComponent(") && badExt == "" {
-				badExt = holeFree(t)
-				spos = c.P.Pos(l.Pos)
-			}
-		}
-		if strings.Contains(t, "url.searchParams") {
+		if strings.Contains(lineText(l.Segs), "url.searchParams") {
 			spRead = true
 		}
 	}
-	r.Check(nExt > 0 && badExt == "", "R08b", "TS server decodes every extracted path segment", spos,
-		"the TS server hands a raw path segment to the handler ("+strings.TrimSpace(badExt)+"): the percent-encoded form the clients send is not the value the caller passed")
+	tsServerSegmentDecode(c, "R08b")
 	r.Check(spRead, "R08b", "TS server reads the query through URL.searchParams", spos, "the TS server does not read query parameters through url.searchParams")
 }
 
@@ -543,4 +535,34 @@ func c08HeaderSetNotAdd(c *Ctx) {
 		return
 	}
 	r.OKd("R08h", "Go client headers are applied with Header.Set", "", map[string]any{"set_lines": nSet, "add_lines": len(bad)})
+}
+
+// tsServerSegmentDecode: the TS server splits the still-encoded pathname and percent-decodes each extracted segment
+// (decoding the whole pathname first would turn an encoded slash inside a value into a separator).
+func tsServerSegmentDecode(c *Ctx, rid string) {
+	r := c.R
+	sl, spos := c.unitLines(pkgTSServer, "_server.ts")
+	if sl == nil {
+		r.Unres(rid, "TS server unit", "", "not found")
+		return
+	}
+	nExt, badExt, early := 0, "", ""
+	for _, l := range sl {
+		t := lineText(l.Segs)
+		if strings.Contains(t, "pathSegments[") {
+			nExt++
+			if !strings.Contains(t, "decodeURIComponent(") && badExt == "" {
+				badExt = holeFree(t)
+				spos = c.P.Pos(l.Pos)
+			}
+		}
+		if strings.Contains(t, ".split(") && strings.Contains(t, "decodeURIComponent(") && strings.Contains(t, "pathname") {
+			early = holeFree(t)
+			spos = c.P.Pos(l.Pos)
+		}
+	}
+	r.Check(nExt > 0 && badExt == "", rid, "TS server decodes every extracted path segment", spos,
+		"the TS server hands a raw path segment to the handler ("+strings.TrimSpace(badExt)+"): the percent-encoded form the clients send is not the value the caller passed")
+	r.Check(early == "", rid, "TS server splits the encoded pathname (decoding happens per segment)", spos,
+		"the TS server decodes the whole pathname before splitting it ("+strings.TrimSpace(early)+"): an encoded slash (%2F) inside a path value becomes a separator, the value is cut and later variables are read from shifted segments")
 }
